@@ -207,7 +207,7 @@ Proof.
   set (G := fun x => match chk ss c (st_evs x) with
                      | Some c' => invR cfg script0 (st_pc x) (st_st x) c' | None => false end).
   change (G (step cfg p s) = true).
-  destruct p; try discriminate; unfold step, loop_once, loop_up, read_pending; bproj.
+  destruct p; try discriminate; unfold step, loop_once, loop_up, lose, read_pending; bproj.
   all: repeat r1.
   all: subst G; timeout 100 r_leaf.
 Qed.
